@@ -48,6 +48,17 @@ def holders():
     add("iterator_partial", "let it = [[1], [2], [3]].iter().map(|x| x); it.next();", "print(it.current(), it.list());")
     add("zip_chain", "let it = ['a' + 'b', 'c' + 'd'].iter().zip([[1], [2]].iter()).chain([('x', [9])].iter());", "print(it.list());")
     add("reduce_acc", "", "print([1, 2, 3, 4].iter().reduce([], |a, x| { a.push(['r', x]); let j = [x, x]; return a; }));")
+    # values that only the native's own (Rust-side) state holds between two callbacks: a fresh accumulator, the current element of a lazy source
+    add("reduce_fresh_acc", "", "print([1, 2, 3, 4].iter().map(|x| [x, 'm' + x.str()]).reduce(nil, |a, x| [a, x]));")
+    add("reduce_fresh_acc_str", "", "print([1, 2, 3].iter().map(|x| ['e' + x.str()]).filter(|x| x[0] != 'e9').reduce('s', |a, x| a + x[0] + 'q'));")
+    add("reduce_in_reduce", "", "print([[1, 2], [3, 4]].iter().map(|p| p.iter().map(|v| [v]).reduce([], |a, x| [a, x])).reduce(nil, |a, x| [a, x]));")
+    add("each_over_fresh", "let out = [];", "[1, 2, 3].iter().map(|x| ['f' + x.str()]).filter(|p| p[0] != 'f2').each(|p| { let j = [p, p]; out.push(p); }); print(out);")
+    add("zip_fresh_both", "", "print([1, 2].iter().map(|x| ['l' + x.str()]).zip([3, 4].iter().map(|x| ['r' + x.str()])).map(|t| [t[0], t[1]]).list());")
+    add("into_fresh", "", "print([1, 2, 3].iter().map(|x| ['i' + x.str()]).into(List.collect), [1, 2].iter().map(|x| ['t' + x.str()]).into(Tuple.collect));")
+    add("all_any_fresh", "", "print([1, 2, 3].iter().map(|x| ['a' + x.str()]).all(|p| { let j = [p]; return p[0].len() == 2; }), [1, 2].iter().map(|x| [x]).any(|p| { let j = [p, p]; return p[0] == 2; }));")
+    add("first_last_fresh", "", "print([1, 2, 3].iter().map(|x| ['z' + x.str()]).last(), [1, 2].iter().map(|x| ['y' + x.str()]).skip(1).first(), [1, 2, 3].iter().map(|x| [x]).take(2).list());")
+    add("sort_fresh_result", "", "print([3, 1, 2].iter().map(|x| [x, 's' + x.str()]).list().sort(|a, b| { let t = [a, b, 'tmp' + a[1]]; return a[0] - b[0]; }));")
+    add("chain_fresh", "", "print([1].iter().map(|x| ['c' + x.str()]).chain([2].iter().map(|x| ['d' + x.str()])).list());")
     add("sort_temp", "", "print([[3], [1], [2]].sort(|a, b| { let t = [a, b]; return a[0] - b[0]; }));")
     add("interpolation_parts", "class S { init(v) { self.v = v; } str() { let t = [1, 2]; return 's' + self.v.str(); } }", "print('a${S(1)}b${S(2)}c${[S(3)]}d');")
     add("string_build", "", "let s = ''; for i in 10.times() { s = s + 'x' + i.str(); } print(s, s.split('x').list().len());")
